@@ -1,5 +1,6 @@
 """ Creating worklist files for the Tecan Freedom EVO.
 """
+import collections.abc
 import logging
 import textwrap
 import warnings
@@ -256,6 +257,9 @@ class EvoWorklist(BaseWorklist):
             Most prominent example: `liquid_class`.
             Take a look at `Worklist.aspirate_well` for the full list of options.
         """
+        if isinstance(kwargs.get("tip"), collections.abc.Iterator):
+            # a one-shot iterable can be read only once, but is needed for every record
+            kwargs["tip"] = tuple(kwargs["tip"])
         # reformat the convenience parameters
         source_wells = np.array(source_wells).flatten("F")
         destination_wells = np.array(destination_wells).flatten("F")
@@ -294,6 +298,11 @@ class EvoWorklist(BaseWorklist):
 
         # automatic partitioning
         partition_by = optimize_partition_by(source, destination, partition_by, label)
+
+        # refuse what no record can carry before the first comment or record is written
+        unsplit = () if self.auto_split else volumes
+        self._validate_well_records(source, source_wells if len(unsplit) else (), unsplit, label, kwargs)
+        self._validate_well_records(destination, (), (), label, kwargs)
 
         # the label applies to the entire transfer operation and is not logged at individual aspirate/dispense steps
         self.comment(label)
